@@ -17,7 +17,8 @@ from ..worlds import build_world
 ID = "C17"
 ENGINE = "eqlmc-E1"
 RULE = ("cases = (inner collections of the parents, observation kind, caching), all combinations; non-trivial = the "
-        "combined list is non-empty and (for membership) some but not all outer values qualify")
+        "combined list is non-empty and (for membership) some but not all outer values qualify"
+        ' Wave 7: the parent variable bound before the concatenation (condition written first, parent selected first): every evaluation must follow ONE of the three readings of the statement (all parents / qualifying parents / the bound parent).')
 ASSUMPTIONS = ["elements are objects compared by identity"]
 
 M = V("m")
